@@ -108,9 +108,13 @@ def r3_final_flush(ck, F):
         src = a[1].strip()
         ok = src.k == "field" and src.x["idx"] == 0 and any(x.k == "call" and x.x["path"].endswith(A("sorter_extract")) for x in src.walk())
     ck.ob(R, "merger-gets-all-cursors", ok, "the merger is extended with the whole cursor vector returned by the final flush", f)
-    cl = [c for c in F.closures_of(A("sorter_into_cursors"))]
-    ok = len(cl) == 1 and cl[0].expr_at_return().strip().k == "field" and cl[0].expr_at_return().strip().x["idx"] == 0
-    ck.ob(R, "cursors-returned-whole", ok, "into_reader_cursors returns the cursor vector unchanged", F.body(A("sorter_into_cursors")))
+    icb = F.body(A("sorter_into_cursors"))
+    oks = [a for a in flat_alts(icb.expr_at_return()) if a.k == "agg" and a.x.get("variant") == "Ok"]
+    ok = len(oks) == 1 and tuple_part(oks[0].a[0]) == {0} and any(x.k == "call" and x.x["path"].endswith(A("sorter_extract")) for x in oks[0].a[0].walk())
+    if not oks:
+        cl = [c for c in F.closures_of(A("sorter_into_cursors"))]
+        ok = len(cl) == 1 and cl[0].expr_at_return().strip().k == "field" and cl[0].expr_at_return().strip().x["idx"] == 0
+    ck.ob(R, "cursors-returned-whole", ok, "into_reader_cursors returns the cursor vector of the final flush unchanged", icb)
 
 
 def r4_age_order(ck, F):
@@ -166,9 +170,10 @@ def r5_reopen(ck, F, R="C07-R5"):
                 pos = a[1].strip()
                 ok = pos.k == "agg" and pos.x.get("variant") == "Start" and const_val(pos.a[0]) == 0 and a[0].ident() == c.arg_exprs(rn[0][0])[0].ident() and len(_q(c, sk[0][0])) == 1
             ck.ob(R, f"rewind-before-open/{p.split('::')[-1]}", ok, "chunk.seek(SeekFrom::Start(0))? dominates Reader::new(chunk) on the same chunk", c)
-            r = c.expr_at_return()
-            names = [x.x["path"].rsplit("::", 1)[-1] for x in r.walk() if x.k == "call"] if r.k != "phi" else [y.x["path"].rsplit("::", 1)[-1] for a_ in r.a for y in a_.walk() if y.k == "call"]
-            ck.ob(R, f"open-into-cursor/{p.split('::')[-1]}", "and_then" in names and "map_err" in names, "Reader::new(chunk).and_then(into_cursor).map_err(convert): an unreadable chunk is an error, not a skipped source", c, nontrivial=False)
+            from .errflow import propagated, err_chain
+            ic = calls(c, "reader::Reader::<R>::into_cursor")
+            okc = len(ic) == 1 and propagated(F, c, rn[0][0]) and propagated(F, c, ic[0][0]) and err_chain(c, rn[0][0]) == ["convert_merge_error"]
+            ck.ob(R, f"open-into-cursor/{p.split('::')[-1]}", okc, "Reader::new(chunk) then into_cursor, errors converted and propagated: an unreadable chunk is an error, not a skipped source", c)
     ck.exact(R, "chunk reopen sites", n, 2, F.config)
     for p in (A("sorter_write_chunk"), A("sorter_merge_chunks")):
         b = F.body(p)
@@ -277,9 +282,10 @@ def r7_group(ck, F, R="C07-R7"):
     for m in merges:
         a = b.arg_exprs(m[0])
         ck.ob(R, f"merge-fn/{b.loc(m[0])}", is_self_field(a[0], "merge_function"), "the sorter's own merge function is used", b, m[0], nontrivial=False)
-        me = [x for x, c_, t in calls(b, "Result::<T, E>::map_err") if b.arg_exprs(x)[0].k == "call" and b.arg_exprs(x)[0].x.get("site") == m[0]]
-        ok = len(me) == 1 and b.arg_exprs(me[0])[1].k == "fn" and b.arg_exprs(me[0])[1].x["path"].endswith("Error::Merge") and len(_q(b, me[0])) == 1
-        ck.ob(R, f"merge-error-wrapped/{b.loc(m[0])}", ok, "merge(..).map_err(Error::Merge)?", b, m[0])
+        from .errflow import err_chain, propagated
+        ch = err_chain(b, m[0])
+        ok = ch == ["Merge"] and propagated(F, b, m[0])
+        ck.ob(R, f"merge-error-wrapped/{b.loc(m[0])}", ok, f"a merge error is wrapped as Error::Merge(e) and propagated (conversions applied: {ch})", b, m[0])
     # first entry starts a group with its value
     somes = [s for s, st in b.sites() if s.i is not None and st["s"] == "assign" and st["rv"]["rv"] == "agg" and st["rv"].get("variant") == "Some" and b.in_loop(s.bb) and "Cow" in st["pl"]["ty"]]
     ck.ob(R, "first-entry-starts-group", len(somes) >= 1, "the first entry initialises (key, [value])", b)
